@@ -186,6 +186,23 @@ pub fn bucket_and_fields(cfg: &Cfg, steps: &[Step], out: &mut Out) {
                         );
                     }
                     let be = klim.e() * klim.b as i128;
+                    for op in &s.trace {
+                        let t: Vec<&str> = op.split(' ').collect();
+                        let ttl: Option<i128> = match t[0] {
+                            "cas" => t[4].parse().ok(),
+                            "setnx" => t[3].parse().ok(),
+                            _ => None,
+                        };
+                        if let Some(ttl) = ttl {
+                            if ttl < be - lvl2 {
+                                out.violation(
+                                    "C07",
+                                    format!("lifetime {} ns asked of the store ends while the state still matters: the key regains its full burst only after {} ns (limits {:?})", ttl, be - lvl2, klim),
+                                    replay_lines(cfg, steps, i),
+                                );
+                            }
+                        }
+                    }
                     if (*reset_ns as i128) < be - lvl2 {
                         out.violation(
                             "C03",
